@@ -77,6 +77,14 @@ func signingAlphabet(ce *Ceremony, batches int) ([]*exEvent, error) {
 			m.ID = fmt.Sprintf("partial-%d-%d", p, k)
 			out = append(out, &exEvent{Label: fmt.Sprintf("partial(%d,b%d)", p, k), Kind: "partial", P: p, Phase: k, Batch: batchName(k), Variant: "valid", Msg: m, Known: true})
 		}
+		// an answer that names the batch but delivers nothing (empty list / null): not a contribution
+		for hi, hollow := range []string{`[]`, `null`} {
+			p := (k + hi) % n
+			raw := fmt.Sprintf(`{"BatchID":%q,"ParticipantId":%d,"PartialSigns":%s,"CreatedAt":%q}`, batchName(k), p, hollow, t0.Format(time.RFC3339Nano))
+			m := world.SignMsg(w.Nodes[p], ce.Round, EvPartialSign, []byte(raw), "")
+			m.ID = fmt.Sprintf("partial-hollow-%d-%d-%d", p, k, hi)
+			out = append(out, &exEvent{Label: fmt.Sprintf("partial(%d,b%d,hollow %s)", p, k, hollow), Kind: "partial", P: p, Phase: k, Batch: batchName(k), Variant: "hollow", Msg: m, Known: true})
+		}
 		// an uninvited participant id, claimed by a legitimate sender
 		var req requests.SigningProposalBatchPartialSignRequests
 		_ = json.Unmarshal(firstData, &req)
@@ -91,7 +99,7 @@ func signingAlphabet(ce *Ceremony, batches int) ([]*exEvent, error) {
 		p := n - 1
 		var good2 requests.SigningProposalBatchPartialSignRequests
 		for _, e := range out {
-			if e.Kind == "partial" && e.P == p && e.Phase == 2 {
+			if e.Kind == "partial" && e.Variant == "valid" && e.Known && e.P == p && e.Phase == 2 {
 				_ = json.Unmarshal(e.Msg.Data, &good2)
 			}
 		}
@@ -233,6 +241,10 @@ func judgeSigningTransition(c *Ctx, n, t int, ex *explorer, s *exState, ev *exEv
 		nm.Cur, nm.Contrib, nm.Fails = ev.Phase, 0, 0
 		nm.Proposed |= 1 << uint(ev.Phase)
 	case "partial":
+		if ev.Variant == "hollow" {
+			c.Violate("C06/answer-without-any-share-counted", fmt.Sprintf("%s accepted in %s: the participant now counts as having delivered", ev.Label, res.Before), wit())
+			return mon, false
+		}
 		if mon.Cur == 0 {
 			c.Violate("C06/contribution-accepted-without-batch", fmt.Sprintf("%s accepted in %s", ev.Label, res.Before), wit())
 			return mon, false
